@@ -5,4 +5,5 @@ cd "$(dirname "$0")/.."
 tools/build_vdeps.sh
 # pre-build the replay crate (only used when an obligation fails / thorough tier); failure here is not fatal
 ( cd replay && CARGO_NET_OFFLINE=true CARGO_TARGET_DIR="$PWD/../.build/replay-target" cargo build --offline >/dev/null 2>&1 ) || echo "replay crate not pre-built (will be built on demand)"
+( cd /repo && CARGO_NET_OFFLINE=true CARGO_TARGET_DIR="$OLDPWD/.build/cli-target" cargo build --offline --features luau,lua52,lua53,lua54,luajit >/dev/null 2>&1 ) || echo "stylua binary not pre-built (will be built on demand)"
 echo setup-ok
